@@ -48,7 +48,7 @@ Proof.
   - destruct (np_get pid (w_np w)) as [cur|]; [|discriminate]. destruct (cur =? v); [discriminate|].
     unfold np_set in H. destruct (np_put pid v (w_np w)) as [n'|]; [|discriminate].
     destruct (np_valid n'); inversion H. reflexivity.
-  - inversion H. reflexivity.
+  - destruct ((hash =? 9) && negb (get_ix 4 (w_reg w) =? 0)); inversion H. reflexivity.
   - unfold whitelist in H. destruct (mem perm _); inversion H. reflexivity.
   - unfold unwhitelist in H. destruct (get_actor who (w_actors w)) as [a|]; [|discriminate].
     destruct (mem perm (a_wl a)); inversion H. reflexivity.
@@ -70,8 +70,8 @@ Qed.
 (* ---- non-vacuity: a history of the instantiated model in which a proposal passes and is applied *)
 Definition demo_ops : list (ctx * cop) :=
   [ (mkC 1000 5, OSubmit 0 (CRegistry 1 7)); (mkC 1000 5, OVote 0 1 1); (mkC 1000 5, OEndBlock);
-    (mkC 1300 6, OVote 0 1 3);                        (* at the end time: still accepted, replaces the yes vote? no: see below *)
-    (mkC 1300 6, OVote 0 1 1); (mkC 1300 6, OEndBlock); (mkC 1310 7, OEndBlock); (mkC 1310 8, OEndBlock) ].
+    (mkC 1300 6, OVote 0 1 3);     (* at the end time (not after it): accepted, replaces the yes vote *)
+    (mkC 1300 6, OVote 0 1 1);     (* ... and is replaced again *) (mkC 1300 6, OEndBlock); (mkC 1310 7, OEndBlock); (mkC 1310 8, OEndBlock) ].
 Definition demo_final : cstate := run world ccontent cext (c_params false decide_q) demo_ops (init w_demo).
 
 Lemma demo_applied_once :
